@@ -3,7 +3,6 @@ package main
 import (
 	"fmt"
 	"go/ast"
-	"go/constant"
 	"go/token"
 	"go/types"
 	"sort"
@@ -23,6 +22,9 @@ func init() {
 	ex := "internal/types/expr.go"
 	vb := "internal/backends/compiler_wat/wir/value_basic.go"
 	register(&Property{ID: "C15", Run: runC15, Mutants: []Mutant{
+		{Name: "complex64 imaginary part rounded at 64 bits", File: ex, Old: "\t\t\tim := roundFloat32(constant.Imag(x))", New: "\t\t\tim := roundFloat64(constant.Imag(x))", Expect: "float-kind-width :: representableConst: Complex64"},
+		{Name: "complex128 checks the real part twice", File: ex, Old: "return fitsFloat64(constant.Real(x)) && fitsFloat64(constant.Imag(x))", New: "return fitsFloat64(constant.Real(x)) && fitsFloat64(constant.Real(x))", Expect: "float-kind-width :: representableConst: Complex128"},
+		{Name: "static u32 data folded into the signed arm", File: vb, Old: "\tcase *U32:\n\t\tb = make([]byte, 4)\n\t\ti, _ := strconv.ParseUint(v.Name(), 0, 32)\n\t\tsi := uint32(i)\n\t\tb[0] = byte(si & 0xFF)\n\t\tb[1] = byte((si >> 8) & 0xFF)\n\t\tb[2] = byte((si >> 16) & 0xFF)\n\t\tb[3] = byte((si >> 24) & 0xFF)\n\n\tcase *I32, *Rune:", New: "\tcase *U32, *I32, *Rune:", Expect: "literal-spelling :: U32"},
 		{Name: "native multiplication fast path accepts 33-bit operands", File: "internal/constant/value.go", Old: "func is32bit(x int64) bool {\n\tconst s = 32\n\treturn -1<<(s-1) <= x && x <= 1<<(s-1)-1", New: "func is32bit(x int64) bool {\n\tconst s = 32\n\treturn -1<<(s-1) <= x && x <= 1<<s-1", Expect: "fast-path-bounds :: is32bit"},
 		{Name: "f32 constants rounded twice", File: ex, Old: "func roundFloat32(x constant.Value) constant.Value {\n\tf32, _ := constant.Float32Val(x)\n\tf := float64(f32)", New: "func roundFloat32(x constant.Value) constant.Value {\n\tf64, _ := constant.Float64Val(x)\n\tf := float64(float32(f64))", Expect: "float-rounding :: roundFloat32"},
 		{Name: "int16 representability uses 15 bits", File: ex, Old: "\t\t\tcase Int16:\n\t\t\t\tconst s = 16", New: "\t\t\tcase Int16:\n\t\t\t\tconst s = 15", Expect: "representable-bounds :: Int16"},
@@ -56,6 +58,7 @@ func runC15(c *Ctx) {
 	if tp != nil {
 		c15Representable(c, p, tp)
 		c15FloatRounding(c, p, tp)
+		c15FloatKindWidth(c, p, tp)
 	}
 	if cp := p.MustPkg("fast-path-bounds", "internal/constant"); cp != nil {
 		c15FastPath(c, p, cp)
@@ -109,7 +112,7 @@ func c15Representable(c *Ctx, p *Prog, tp *packages.Package) {
 					c.Check(good, rule, k.Name, loc, "whole int64 range / non-negative", k.Name+": a constant that fits int64 must be accepted "+map[bool]string{true: "always", false: "iff it is non-negative"}[k.Name == "Int64"])
 					continue
 				}
-				lo, hi, shape := boundsOf(info, ret)
+				lo, hi, shape := boundsOf(p, tp, ret)
 				var wantLo, wantHi int64
 				if w[1] == 1 {
 					wantLo, wantHi = -(int64(1) << (w[0] - 1)), int64(1)<<(w[0]-1)-1
@@ -153,12 +156,76 @@ func c15Representable(c *Ctx, p *Prog, tp *packages.Package) {
 	c.Min(rule, "integer kind arms", n, 11)
 }
 
-// boundsOf reads `L <= x && x <= U` with constant L, U.
-func boundsOf(info *types.Info, ret *ast.ReturnStmt) (lo, hi int64, ok bool) {
+// boundsOf reads `L <= x && x <= U` with bounds that evaluate to constants. The test may be written in place or in a
+// helper of the package whose body is a single return (`fitsIntN(x, 8)`): the helper's parameters are bound to the
+// arguments (the value under test stays symbolic) and its return expression is read instead.
+func boundsOf(p *Prog, tp *packages.Package, ret *ast.ReturnStmt) (lo, hi int64, ok bool) {
+	info := tp.TypesInfo
 	if ret == nil || len(ret.Results) != 1 {
 		return
 	}
-	and, isAnd := ast.Unparen(ret.Results[0]).(*ast.BinaryExpr)
+	env := &fenv{info: info, vars: map[types.Object]fval{}}
+	isX := map[types.Object]bool{}
+	xIdent := func(e ast.Expr) bool {
+		id, isID := ast.Unparen(e).(*ast.Ident)
+		if !isID {
+			return false
+		}
+		return id.Name == "x" && len(isX) == 0 || isX[info.Uses[id]]
+	}
+	expr := ast.Unparen(ret.Results[0])
+	for depth := 0; depth < 3; depth++ {
+		call, isCall := expr.(*ast.CallExpr)
+		if !isCall {
+			break
+		}
+		fn := CalleeOf(info, call)
+		if fn == nil || fn.Pkg() != tp.Types {
+			return
+		}
+		var hd *ast.FuncDecl
+		for _, f := range tp.Syntax {
+			for _, d := range f.Decls {
+				if fd, isFn := d.(*ast.FuncDecl); isFn && info.Defs[fd.Name] == fn {
+					hd = fd
+				}
+			}
+		}
+		if hd == nil || hd.Body == nil || len(hd.Body.List) != 1 {
+			return
+		}
+		hret, isRet := hd.Body.List[0].(*ast.ReturnStmt)
+		if !isRet || len(hret.Results) != 1 {
+			return
+		}
+		var params []types.Object
+		for _, fl := range hd.Type.Params.List {
+			for _, nm := range fl.Names {
+				params = append(params, info.Defs[nm])
+			}
+		}
+		if len(params) != len(call.Args) {
+			return
+		}
+		newX := map[types.Object]bool{}
+		for i, a := range call.Args {
+			if xIdent(a) {
+				newX[params[i]] = true
+				continue
+			}
+			v := env.eval(a)
+			if !v.OK || v.IsBool {
+				return
+			}
+			env.vars[params[i]] = v
+		}
+		if len(newX) == 0 {
+			return
+		}
+		isX = newX
+		expr = ast.Unparen(hret.Results[0])
+	}
+	and, isAnd := expr.(*ast.BinaryExpr)
 	if !isAnd || and.Op != token.LAND {
 		return
 	}
@@ -167,17 +234,14 @@ func boundsOf(info *types.Info, ret *ast.ReturnStmt) (lo, hi int64, ok bool) {
 	if !ok1 || !ok2 || l.Op != token.LEQ || r.Op != token.LEQ {
 		return
 	}
-	lv, okl := info.Types[l.X]
-	rv, okr := info.Types[r.Y]
-	if !okl || !okr || lv.Value == nil || rv.Value == nil {
+	if !xIdent(l.Y) || !xIdent(r.X) {
 		return
 	}
-	if types.ExprString(l.Y) != "x" || types.ExprString(r.X) != "x" {
+	lv, rv := env.eval(l.X), env.eval(r.Y)
+	if !lv.OK || !rv.OK || lv.IsBool || rv.IsBool {
 		return
 	}
-	a, oka := constant.Int64Val(constant.ToInt(lv.Value))
-	b, okb := constant.Int64Val(constant.ToInt(rv.Value))
-	return a, b, oka && okb
+	return lv.I, rv.I, true
 }
 
 // ---- (2)
@@ -389,6 +453,8 @@ func c15Spelling(c *Ctx, p *Prog, wp *packages.Package, spell map[string]string)
 					probs = append(probs, "getValue spells u64 constants through strconv.Itoa(int(val)), which is negative from 1<<63 up; this arm parses with ParseUint only and drops the error: such constants become 0 in static data")
 				case w[1] == 0 && w[0] == 64 && sp == "format-uint" && !hasU:
 					probs = append(probs, "getValue spells u64 constants unsigned; this arm cannot parse values above MaxInt64")
+				case w[1] == 0 && w[0] < 64 && !hasU:
+					probs = append(probs, fmt.Sprintf("an unsigned %d-bit type is parsed with ParseInt(.., %d) only: literals from 1<<%d up are outside ParseInt's range, the error is dropped and the value is clamped to the largest signed one — a %s constant with its top bit set is stored as 0x7f…ff in static data", w[0], w[0], w[0]-1, strings.ToLower(name)))
 				}
 				sort.Strings(probs)
 				c.Check(len(probs) == 0, rule, name, p.Pos(arm.Clause.Pos()), fmt.Sprintf("%d-bit %s, spelled %q", w[0], signName(w[1] == 1), sp), "aBasic.Bin("+name+"): "+strings.Join(probs, "; "))
